@@ -90,7 +90,8 @@ def gen(tier, seed, shard, nshards):
             else:
                 cov = np.diag(np.round(rng.uniform(0.1, 9, p), 2))
             mean = np.round(rng.uniform(-5, 5, p), 2)
-            yield "nd", {"mean": mean, "cov": cov, "n": cfg["n"], "rs": int(rng.integers(0, 2**32))}
+            yield "nd", {"mean": mean, "cov": cov, "n": cfg["n"], "rs": int(rng.integers(0, 2**32)),
+                         "check_valid": ("ignore", "warn", "raise")[(i // 3) % 3] if style != 1 else "ignore"}
         k += 1
     for i in range(cfg["lganm"]):
         if k % nshards == shard:
@@ -152,7 +153,11 @@ def judge(family, case, rec):
     n = case["n"]
     if family == "nd":
         mean, cov = case["mean"], case["cov"]
-        dist = sempler.NormalDistribution(mean, cov)
+        import warnings as _w
+        with _w.catch_warnings():
+            _w.simplefilter("ignore")
+            dist = sempler.NormalDistribution(mean, cov, check_valid=case.get("check_valid", "ignore"))
+        rec.count("nd:check_valid=" + case.get("check_valid", "ignore"))
 
         def draw(rs, nn):
             return dist.sample(nn, random_state=rs)
@@ -166,6 +171,21 @@ def judge(family, case, rec):
         pop_mean, pop_cov = np.asarray(pop.mean, dtype=float), np.asarray(pop.covariance, dtype=float)
         nontrivial = bool(len(W) >= 2 and (np.abs(pop_cov - np.diag(np.diag(pop_cov))).max() > 0 or any(iv[k] for k in iv)))
         if family == "lganm":
+            if len(W) % 2 and iv["do"]:
+                # a parameter sweep: ONE dict object, edited in place between calls (first another value, then the judged one)
+                sweep = dict(iv["do"])
+                first = dict((j, ((v[0] - 5.0, v[1] + 1.0) if isinstance(v, tuple) else v + 3.0)) for j, v in iv["do"].items())
+                kw_sweep = dict(kw, do_interventions=sweep)
+                sweep.update(first)
+                try:
+                    model.sample(3, **kw_sweep)
+                    model.sample(population=True, **kw_sweep)
+                except Exception:
+                    pass
+                sweep.update(iv["do"])
+                kw = kw_sweep
+                rec.count("history:same-dict-object-swept-in-place")
+
             def draw(rs, nn):
                 return model.sample(nn, random_state=rs, **kw)
         else:
